@@ -135,7 +135,7 @@ var subjectLabels = func() []string {
 	for _, k := range scalarKinds {
 		l = append(l, "sm2/"+k)
 	}
-	l = append(l, "sm2/pubx0", "sm2/puby0")
+	l = append(l, "sm2/pubx0", "sm2/puby0", "sm2/ylow0")
 	for _, k := range scalarKinds {
 		l = append(l, "ecdh/"+k)
 	}
@@ -151,10 +151,11 @@ var subjectLabels = func() []string {
 		}
 	}
 	for _, f := range []string{"sm9su", "sm9eu"} {
-		for _, k := range []string{"d=1", "hi0", "random", "random2"} {
+		for _, k := range []string{"d=1", "hi0", "random", "random2", "low0"} {
 			l = append(l, f+"/"+k)
 		}
 	}
+	l = append(l, "sm9sm/low0", "sm9em/low0")
 	return l
 }()
 
@@ -251,6 +252,21 @@ func newSubject(r *mon.Rand, label string) (*subject, error) {
 	case "sm2":
 		n := sm2.P256().Params().N
 		max := new(big.Int).Sub(n, big.NewInt(2))
+		if kind == "ylow0" {
+			// the last octet of the public point has its low 7 bits clear: the BIT STRINGs that
+			// hold it stay well formed with 1..7 unused bits
+			for i := 0; i < 1<<14; i++ {
+				d := scalar(r, "random", max, 32)
+				k, err := sm2.NewPrivateKey(d)
+				if err != nil {
+					return nil, err
+				}
+				if k.Y.Bit(0)|k.Y.Bit(1)|k.Y.Bit(2)|k.Y.Bit(3)|k.Y.Bit(4)|k.Y.Bit(5)|k.Y.Bit(6) == 0 {
+					return sm2Subject(label, d)
+				}
+			}
+			return nil, fmt.Errorf("no %s scalar found", kind)
+		}
 		if kind == "pubx0" || kind == "puby0" {
 			// search a scalar whose public point has a leading zero byte in x (or y)
 			for i := 0; i < 1<<14; i++ {
@@ -427,10 +443,31 @@ func newSM9Subject(r *mon.Rand, label, fam, kind string) (*subject, error) {
 			mk = "random"
 		}
 	}
-	d := scalar(r, mk, max, 32)
-	m, err := sm9MasterFromScalar(fam, d)
-	if err != nil {
-		return nil, fmt.Errorf("SM9 master key from scalar %x: %v", d, err)
+	if kind == "low0" {
+		// low0: the last octet of the encoded key (master public key / user private key) has its
+		// low 3 bits clear, so its BIT STRING stays well formed with 1..3 unused bits
+		mk = "random"
+	}
+	var d []byte
+	var m any
+	var err error
+	for try := 0; ; try++ {
+		d = scalar(r, mk, max, 32)
+		if m, err = sm9MasterFromScalar(fam, d); err != nil {
+			return nil, fmt.Errorf("SM9 master key from scalar %x: %v", d, err)
+		}
+		if kind != "low0" || fam == "sm9su" || fam == "sm9eu" || try > 512 {
+			break
+		}
+		var pb []byte
+		if k, ok := m.(*sm9.SignMasterPrivateKey); ok {
+			pb = k.PublicKey().Bytes()
+		} else {
+			pb = m.(*sm9.EncryptMasterPrivateKey).PublicKey().Bytes()
+		}
+		if pb[len(pb)-1]&7 == 0 {
+			break
+		}
 	}
 	s := &subject{label: label, fam: fam}
 	switch fam {
@@ -496,6 +533,10 @@ func newSM9Subject(r *mon.Rand, label, fam, kind string) (*subject, error) {
 		mk := m.(*sm9.SignMasterPrivateKey)
 		uid := r.Bytes(r.Range(1, 24))
 		k, err := mk.GenerateUserKey(uid, 0x01)
+		for try := 0; kind == "low0" && err == nil && k.Bytes()[64]&7 != 0 && try < 512; try++ {
+			uid = r.Bytes(r.Range(1, 24))
+			k, err = mk.GenerateUserKey(uid, 0x01)
+		}
 		if err != nil {
 			return nil, fmt.Errorf("SM9 sign user key (master %x, uid %x): %v", d, uid, err)
 		}
@@ -515,6 +556,10 @@ func newSM9Subject(r *mon.Rand, label, fam, kind string) (*subject, error) {
 		mk := m.(*sm9.EncryptMasterPrivateKey)
 		uid := r.Bytes(r.Range(1, 24))
 		k, err := mk.GenerateUserKey(uid, 0x03)
+		for try := 0; kind == "low0" && err == nil && k.Bytes()[128]&7 != 0 && try < 512; try++ {
+			uid = r.Bytes(r.Range(1, 24))
+			k, err = mk.GenerateUserKey(uid, 0x03)
+		}
 		if err != nil {
 			return nil, fmt.Errorf("SM9 encrypt user key (master %x, uid %x): %v", d, uid, err)
 		}
